@@ -29,7 +29,69 @@ DICTS = ("constants_for_params", "time_consts", "time_consts_for_params")
 NON_SETTERS = {"__init__", "check_all_set", "get_global_distribution_waste", "get_distribution_waste"}
 
 
+def _rename(fn, old, new):
+    if old == new or old is None:
+        return
+    for n in ast.walk(fn):
+        if isinstance(n, ast.Name) and n.id == old:
+            n.id = new
+        elif isinstance(n, ast.arg) and n.arg == old:
+            n.arg = new
+
+
+def _assigned_from(fn, pred):
+    """names assigned (anywhere in fn) from a value satisfying pred"""
+    out = []
+    for st in walk_no_nested(fn):
+        if isinstance(st, ast.Assign) and len(st.targets) == 1 and isinstance(st.targets[0], ast.Name) and pred(st.value):
+            if st.targets[0].id not in out:
+                out.append(st.targets[0].id)
+    return out
+
+
+def canonicalise(index):
+    """The rules below name a handful of locals of the option dispatcher and of the Scenarios setters.  What those locals ARE is
+    structural (the Scenarios() object, the working copy of the options, the validity flag, the constants dictionary that is
+    threaded through the setters and returned, ...), so each is located by that role and renamed - in this run's in-memory syntax
+    trees only - to the name the rules use.  A maintainer's rename of such a local therefore changes nothing for the rules."""
+    fn = index.func(RUN, "ScenarioRunner.set_depending_on_option")
+    opt_param = [a.arg for a in fn.args.args if a.arg != "self"][0]
+    loader = _assigned_from(fn, lambda v: isinstance(v, ast.Call) and dotted(v.func) == "Scenarios")
+    copyv = _assigned_from(fn, lambda v: isinstance(v, ast.Call) and ((isinstance(v.func, ast.Attribute) and v.func.attr == "alter_scenario_if_known_to_fail")
+                                                                         or (dotted(v.func) == "copy.deepcopy" and v.args and norm_src(v.args[0]) == opt_param)))
+    trues = _assigned_from(fn, lambda v: isinstance(v, ast.Constant) and v.value is True)
+    falses = _assigned_from(fn, lambda v: isinstance(v, ast.Constant) and v.value is False)
+    asserted = {norm_src(a.test) for a in walk_no_nested(fn) if isinstance(a, ast.Assert)}
+    flag = [n for n in trues if n in falses and n in asserted]
+    if len(loader) == 1:
+        _rename(fn, loader[0], "scenario_loader")
+    if len(copyv) == 1:
+        _rename(fn, copyv[0], "scenario_option_copy")
+    if len(flag) == 1:
+        _rename(fn, flag[0], "scenario_is_correct")
+    consts = _assigned_from(fn, lambda v: isinstance(v, ast.Call) and isinstance(v.func, ast.Attribute) and dotted(v.func.value) == "scenario_loader"
+                            and v.func.attr.startswith("init_"))
+    if len(consts) == 1:
+        _rename(fn, consts[0], "constants_for_params")
+    mult = _assigned_from(fn, lambda v: isinstance(v, ast.Call) and dotted(v.func) == "float" and v.args and "MULTIPLIER" in norm_src(v.args[0]))
+    if len(mult) == 1:
+        _rename(fn, mult[0], "multiplier")
+    alt = index.func(RUN, "ScenarioRunner.alter_scenario_if_known_to_fail")
+    tbl = _assigned_from(alt, lambda v: isinstance(v, ast.List) and v.elts and all(isinstance(e, ast.Dict) for e in v.elts))
+    if len(tbl) == 1:
+        _rename(alt, tbl[0], "failing_scenarios")
+    # Scenarios methods: the dictionary that is returned is `constants_for_params`
+    for m in index.methods(SCEN, "Scenarios").values():
+        rets = {norm_src(r.value) for r in walk_no_nested(m) if isinstance(r, ast.Return) and isinstance(r.value, ast.Name)}
+        if len(rets) == 1:
+            name = rets.pop()
+            subs = [n for n in ast.walk(m) if isinstance(n, ast.Subscript) and isinstance(n.value, ast.Name) and n.value.id == name]
+            if subs and name != "constants_for_params" and not any(isinstance(n, ast.Name) and n.id == "constants_for_params" for n in ast.walk(m)):
+                _rename(m, name, "constants_for_params")
+
+
 def run(index, rep):
+    canonicalise(index)
     setters = analyse_setters(index, rep)
     disp = dispatch(index, rep, setters)
     rep.guard(doc, index, rep, disp)
